@@ -64,6 +64,9 @@ pub fn plan07(tier: Tier) -> Plan {
     for p in ps {
         checks.push(qcheck(Mode::C07, p, "q07", 4, 0.0));
     }
+    for p in [0., 0.25, 1. / 3., 0.5, 0.75, 1.] {
+        checks.push(qcheck(Mode::C07, p, "q07huge", 4, 0.0));
+    }
     for p in [0., 0.5, 1. / 3.] {
         checks.push(cross(super::quantile::QSpec::new(Mode::C07, p, "q07"), 4));
     }
